@@ -221,6 +221,8 @@ def run(ctx):
               setup_interp=setup, fsem="uf", crosscheck=False)
     import props.C06_commands as CM
     CM.prove_commands(ctx)
+    import props.C06_line as LI
+    LI.prove_line(ctx)            # (each code word handed on once; a line resets nothing the doubling logic relies on)
     ctx.bounded("programs", "roll-up programs (depth 2-4, fixed and moving base rows incl. one row down / up per line, 1-8 "
                 "rows of text, single / doubled codes, drop / non-drop, gaps 0-90 frames, mode code on every line or only "
                 "once) and paint-on programs (1-3 buffers of 1-3 adjacent or non-adjacent rows): every transmitted row "
